@@ -996,6 +996,8 @@ func runC12(r *Run) {
 		// option lists of 3 and 5-7 entries (slices that grow by doubling keep a spare slot at these lengths), local variables among them
 		{"tag-empty", func() []bexpr.Option { return []bexpr.Option{bexpr.WithTagName("")} }},
 		{"budget-large", func() []bexpr.Option { return []bexpr.Option{bexpr.WithMaxExpressions(100000)} }},
+		// a budget that suffices for the short expressions only: whatever served such a creation must not carry the budget into the next one
+		{"budget-3000", func() []bexpr.Option { return []bexpr.Option{bexpr.WithMaxExpressions(3000)} }},
 		{"locals-3", func() []bexpr.Option {
 			return []bexpr.Option{bexpr.WithLocalVariable("lv1", nil, 1), bexpr.WithLocalVariable("lv2", []string{"A"}, nil), bexpr.WithLocalVariable("lv3", nil, "x")}
 		}},
@@ -1036,6 +1038,9 @@ func runC12(r *Run) {
 			fmt.Fprintf(os.Stderr, "CASE %s [%s]\n", e, os_.name)
 			sharedOpts := os_.o() // ONE list of option values, handed to every concurrent creation below
 			seqEv, err := bexpr.CreateEvaluator(e, os_.o()...)
+			if err != nil && os_.name == "budget-3000" && strings.Contains(err.Error(), "max number of expresssions parsed") {
+				continue // the budget is too small for this expression: as it should be
+			}
 			if err != nil {
 				r.Violate("creation-failed", e+"|"+os_.name, map[string]interface{}{"expression": e, "options": os_.name}, "CreateEvaluator failed for an expression of the language: "+err.Error())
 				continue
